@@ -128,6 +128,26 @@ CHECKS.update({
         'statement; distances within 1e-9 of a bin edge (not exactly on it) are skipped; pymatgen distances trusted (cross-checked in C12)',
         '4/C11',
     ),
+    'C17': (
+        'Theorems (GProofs/C17.lean): number of collected points = number of (operation, position) pairs within the radius; the collected point is the '
+        'inverse operation\'s linear part applied to (re-imaged position - moved site), so for an isometric operation its squared distance to the centre equals '
+        'that difference\'s squared length; re-imaging moves by whole cells and leaves every component within half a cell; with the radius below half of every '
+        'perpendicular width (4 r^2 adj_ii <= det G) the per-axis re-image IS the short periodic image (reimage_is_short_image), hence every point lies within the '
+        'radius; supercell folding = s*p mod 1. Tie: 9 space groups x compatible rational lattices, sites near faces, counts / distances / points vs the model.',
+        'defect D12 (one-cell re-imaging) repaired by a fix commit; that pymatgen\'s operations are isometries of the chosen lattices is checked per case '
+        '(model-isometry), not proved; float matrix products by tolerance 1e-9',
+        '4/C17',
+    ),
+    'C18': (
+        'Theorems (GProofs/C18.lean): the per-axis wrap of the difference of two wrapped positions has every component in [-1/2,1/2] and is congruent to '
+        'sat - cent; if some periodic image of the bond is shorter than r with r below half of every perpendicular width the direction vector IS that image '
+        '(length = periodic distance); symmetrize layout [b*n_ops + k] = R_k^T v_b and, for operation sets closed under transposition, exactly the images R v; '
+        'transform applies the matrix to every vector; the autocorrelation definition is 1 at lag 0 and identically 1 for a constant vector. '
+        'Tie: tetrahedral clusters with bonds across faces on pool lattices, 6 point groups, exact layout on frame 0.',
+        'known finding D13 (fft_autocorrelation uses irfft with its default length 2N-2; an offline unit test pins the defective mean) classified by agreement with the '
+        'as-is binary64 twin (direct DFT, bit-close); normalize and the spherical representation are checked on the implementation only (sqrt / trigonometry, no theorem)',
+        '4/C18',
+    ),
     'C13': (
         'Theorems (GProofs/C13.lean) on the list-level model that follows the code path (selection through filter = through wrapped '
         'positions): the corrected trajectory keeps the original base positions and first frame; under SmallSteps and a non-empty '
